@@ -6,7 +6,8 @@
    normalised headers), [extract] is extractTarDirectory started in the directory that
    pushDir pre-creates, [expected umask preserve T] is the source tree seen as a file
    system with the modes the property allows. *)
-From Oras Require Import Base.Prelude Model.TarRoundTrip Proofs.TarRoundTrip.
+From Oras Require Import Base.Prelude Generated.GC12 Model.TarRoundTrip Model.FileAnnotations
+  Proofs.TarRoundTrip Proofs.TarWalkOrder.
 
 (* Round trip, exactly as the current code behaves: every path of the restored directory
    is the path of the source tree -- same kind, bytes, link target, and mode (minus the umask
@@ -22,6 +23,16 @@ Theorem C12_roundtrip_partial :
       forall p, fs_lookup f' p = expected_impl umask preserve T p.
 Proof. exact roundtrip_impl. Qed.
 Print Assumptions C12_roundtrip_partial.
+
+(* The same for what Store.Add really writes: filepath.Walk sorts every directory; the
+   hypotheses and the result are stated on the tree as given (sorting changes neither). *)
+Theorem C12_roundtrip_walk_partial :
+  forall pre umask preserve repro T,
+    is_dir T = true -> wf_treeb T = true -> modes_okb T = true -> benign_tree T = true ->
+    exists f', extract pre umask preserve (tar_entries pre repro T) = Ok f' /\
+      forall p, fs_lookup f' p = expected_impl umask preserve T p.
+Proof. exact roundtrip_walk. Qed.
+Print Assumptions C12_roundtrip_walk_partial.
 
 (* With PreservePermissions the restored directory is the source tree, modes exact. *)
 Theorem C12_roundtrip_preserve :
@@ -77,15 +88,14 @@ Section Codec.
       (forall tarb, gunz blob = Some tarb -> d_checksum digest d = Some (H tarb)).
   Proof. exact (descriptor_of_stored_bytes digest H enc gz gunz gunz_gz). Qed.
 
-  (* Add -> Push of the very blob and descriptor restores the walked tree *)
+  (* Add -> Push of the very blob and descriptor restores the tree *)
   Theorem C12_unpack_roundtrip_partial :
     forall pre umask preserve repro T,
-      is_dir T = true -> wf_treeb (sort_tree T) = true -> modes_okb (sort_tree T) = true ->
-      benign_tree (sort_tree T) = true ->
+      is_dir T = true -> wf_treeb T = true -> modes_okb T = true -> benign_tree T = true ->
       exists f', unpack digest H digest_eqb dec gunz umask preserve
                    (dir_descriptor digest H enc gz pre repro T) (dir_blob enc gz pre repro T) = Ok f' /\
-        forall p, fs_lookup f' p = expected_impl umask preserve (sort_tree T) p.
-  Proof. exact (unpack_roundtrip digest H digest_eqb enc dec gz gunz digest_eqb_spec dec_enc gunz_gz). Qed.
+        forall p, fs_lookup f' p = expected_impl umask preserve T p.
+  Proof. exact (unpack_roundtrip_walk digest H digest_eqb enc dec gz gunz digest_eqb_spec dec_enc gunz_gz). Qed.
 
   (* the recorded uncompressed digest is verified on unpack *)
   Theorem C12_wrong_checksum_rejected :
@@ -117,6 +127,17 @@ Print Assumptions C12_unpack_roundtrip_partial.
 Print Assumptions C12_wrong_checksum_rejected.
 Print Assumptions C12_wrong_blob_rejected.
 Print Assumptions C12_reproducible.
+
+(* The three annotations Add writes do not clobber each other (keys regenerated from
+   content/file/file.go) and make Store.push unpack unless SkipUnpack. *)
+Theorem C12_annotations :
+  forall checksum name skip,
+    annot_get (dir_annotations checksum name) AnnotationDigest = checksum /\
+    annot_get (dir_annotations checksum name) AnnotationUnpack = b "true" /\
+    annot_get (dir_annotations checksum name) title_key = name /\
+    need_unpack (dir_annotations checksum name) skip = negb skip.
+Proof. exact dir_annotations_independent. Qed.
+Print Assumptions C12_annotations.
 
 (* Two blobs with the same bytes but different names both materialise: whatever subset of
    the layers oras.Copy pushed (at least one per content, any order), after the manifest is
@@ -160,8 +181,8 @@ Definition C12_example_tree : tree :=
               (b "a-rather-long-name.with.dots", Link (b "sub/missing") 8) ].
 
 Example C12_nonvacuous :
-  is_dir C12_example_tree = true /\ wf_treeb (sort_tree C12_example_tree) = true /\
-  modes_okb (sort_tree C12_example_tree) = true /\ benign_tree (sort_tree C12_example_tree) = true /\
+  is_dir C12_example_tree = true /\ wf_treeb C12_example_tree = true /\
+  modes_okb C12_example_tree = true /\ benign_tree C12_example_tree = true /\
   map e_name (tar_entries [b "d"] true C12_example_tree) =
     [ [b "d"]; [b "d"; b "a-rather-long-name.with.dots"]; [b "d"; b "sub"]; [b "d"; b "sub"; b "e"];
       [b "d"; b "sub"; b "empty"]; [b "d"; b "sub"; b "self"]; [b "d"; b "sub"; b "up"]; [b "d"; b "z"] ].
